@@ -198,6 +198,16 @@ def _base_rows() -> Iterator[dict]:
                    "servers": "/other"}
         for server in ("/", "/api", "/api/", "/api/v1/", HOST + "/api", HOST + "/api/v1/"):
             yield {"kind": "base", "spec": "3.0", "loc": loc, "template": template, "mode": "servers", "base": None, "servers": server}
+        # server URL templates with variables (the defaults apply), at the start, in the host part and in the path
+        for server_object in (
+            {"url": "{scheme}://verif.local/api", "variables": {"scheme": {"default": "http", "enum": ["http", "https"]}}},
+            {"url": "{server}/api/v1/", "variables": {"server": {"default": HOST}}},
+            {"url": "{server}", "variables": {"server": {"default": HOST + "/api"}}},
+            {"url": "/{base}/v1", "variables": {"base": {"default": "api"}}},
+            {"url": HOST + "/{base}", "variables": {"base": {"default": "api"}}},
+            {"url": "http://{host}/api/{version}/", "variables": {"host": {"default": "verif.local"}, "version": {"default": "v1"}}},
+        ):
+            yield {"kind": "base", "spec": "3.0", "loc": loc, "template": template, "mode": "servers", "base": None, "servers": server_object}
         for base_path in (None, "/", "/api", "/api/", "/api/v1/"):
             yield {"kind": "base", "spec": "2.0", "loc": loc, "template": template, "mode": "basePath", "base": None,
                    "servers": base_path}
@@ -378,7 +388,10 @@ def build(item: dict) -> tuple[dict, Expect, dict]:
             d, p = _param_def(spec, loc, "string")
             params, ps = [d], [p]
         extra: dict[str, Any] = {}
-        if spec == "3.0" and item["servers"] is not None:
+        if spec == "3.0" and isinstance(item["servers"], dict):
+            # the first server applies; a second one is listed and must not be used
+            extra["servers"] = [copy.deepcopy(item["servers"]), {"url": "/unused"}]
+        elif spec == "3.0" and item["servers"] is not None:
             extra["servers"] = [{"url": item["servers"]}]
         if spec == "2.0" and item["servers"] is not None:
             extra["basePath"] = item["servers"]
@@ -388,6 +401,8 @@ def build(item: dict) -> tuple[dict, Expect, dict]:
             cfg: dict[str, Any] = {"base_url": item["base"]}
         else:
             declared = item["servers"] or "/"
+            if isinstance(declared, dict):
+                declared = declared["url"].format(**{name: var["default"] for name, var in declared["variables"].items()})
             prefix, base_path = _split_base(declared if declared.startswith("http") else HOST + declared)
             cfg = {"location": HOST + "/openapi.json"}
         facts = {"location": loc, "base_mode": item["mode"], "template": template}
